@@ -61,6 +61,7 @@ type Scenario struct {
 	Imports  []string `json:"imports"` // imports needed by aux / field types
 	Structs  []Struct `json:"structs"`
 	Grouped  bool     `json:"grouped"`  // render all structs in one `type ( ... )` group, aux non-struct specs in between
+	GroupDoc []string `json:"groupdoc"` // comment lines above `type (` of a grouped declaration (GenDecl.Doc)
 	GroupAux []string `json:"groupaux"` // non-struct specs placed between the structs of a group, e.g. "Mid int"
 }
 
@@ -124,6 +125,9 @@ func (sc *Scenario) Source() map[string]string {
 		main.WriteString(a + "\n\n")
 	}
 	if sc.Grouped {
+		for _, d := range sc.GroupDoc {
+			main.WriteString(d + "\n")
+		}
 		main.WriteString("type (\n")
 		for i, s := range sc.Structs {
 			for _, d := range s.SpecDoc {
@@ -166,10 +170,11 @@ func coqField(f Field) string {
 }
 
 // CoqDecl renders the struct as an sdecl term.
-func (s *Struct) CoqDecl(grouped bool) string {
+func (s *Struct) CoqDecl(grouped bool, groupDoc []string) string {
 	doc := append([]string{}, s.GenDoc...)
 	if grouped {
-		doc = append([]string{}, s.SpecDoc...)
+		// GenDecl.Doc lines followed by TypeSpec.Doc lines
+		doc = append(append([]string{}, groupDoc...), s.SpecDoc...)
 	}
 	items := make([]string, len(s.Fields))
 	for i, f := range s.Fields {
@@ -186,8 +191,9 @@ func collectDocs(fs []Field, acc *[]string) {
 }
 
 // CoqNumTab evaluates every marker parameter (and every trimmed enum item) that is a numeric literal.
-func (s *Struct) CoqNumTab(grouped bool) string {
+func (s *Struct) CoqNumTab(grouped bool, groupDoc []string) string {
 	var docs []string
+	docs = append(docs, groupDoc...)
 	docs = append(docs, s.GenDoc...)
 	docs = append(docs, s.SpecDoc...)
 	collectDocs(s.Fields, &docs)
